@@ -16,7 +16,7 @@ from .common import Corr, f2hex, hex2f, flist, parse_list
 
 ID = "C04"
 LEAN_MODULES = ["TempestVerif.Props.C04", "TempestVerif.Props.C04Round", "TempestVerif.Props.C04RoundQ", "TempestVerif.Props.C04Keys",
-                "TempestVerif.Props.C04Merge", "TempestVerif.Props.C04Post", "TempestVerif.Props.C04Sites"]
+                "TempestVerif.Props.C04Merge", "TempestVerif.Props.C04Post", "TempestVerif.Props.C04Sites", "TempestVerif.Props.C04Source"]
 RULE = ("suite weights-T: generated histories, T in 1..12 iterations (every value), batch sizes n_t in 1..40 (unequal unless T=1 or a deliberate "
         "equal-size case), beta_t unsorted in [0,1] incl. repeated 0 and 1, z_t uniform in +-50 or +-1e5, log-likelihoods at scales 10 / 1e3 / 1e6 "
         "(both signs) with clusters of equal and 1-ulp-apart values, target beta in {0, 1, interior}; 20% of the histories hand integral beta_t / z_t / beta "
@@ -76,7 +76,10 @@ def translators():
     """G13: the text of compute_logw_and_logz / compute_results, every call site of the weight function, the cache discipline of
     StateManager — regenerated from the source into Gen/WeightSites.lean; Props/C04Sites.lean holds the obligations about them"""
     from translate import g13_wsites
-    return [g13_wsites.generate()]
+    # G13b (same module): the ARITHMETIC of compute_logw_and_logz / compute_posterior, the tests, the return tree, the literal
+    # targets of the call sites compiled to terms over `ScT α` (Gen/WeightSrc.lean); Props/C04Source.lean proves by `rfl` that
+    # Model.Weights / Model.WeightsKeys / Model.Posterior(X) unfold to exactly those terms
+    return [g13_wsites.generate(), g13_wsites.generate_src()]
 
 
 # ------------------------------------------------------------------ real code
